@@ -165,6 +165,35 @@ def g_commute(ctx, rng, i):
     qc = g.PointCollection(np.stack([p.array for p in (P[1], P[2], P[3])]))
     rec("commute.join", "t*join(collections)", t * g.join(pc, qc), g.join(t * pc, t * qc), [t, pc, qc])
 
+    # complex projective maps (Gaussian integer matrices): the same commutation rules
+    if i % 4 == 1:
+        for _ in range(20):
+            Mc = gen.coords(rng, (n, n), 2, "int") + 1j * gen.coords(rng, (n, n), 2, "int")
+            if abs(np.linalg.det(Mc)) > 0.5 and np.linalg.cond(Mc) < 50:
+                break
+        else:
+            Mc = None
+        if Mc is not None:
+            tcx = g.Transformation(Mc)
+            cc = float(np.linalg.cond(Mc))
+
+            def recc(monitor, what, lhs, rhs, ops):
+                ok, why = _proj_same(lhs, rhs, 1e-9 * cc ** 2)
+                ctx.judge(monitor, ok, ops, what=f"{what} (complex matrix): {why}", op=what, nontrivial=True, feat={"dim": dim, "tkind": "complex"})
+
+            try:
+                recc("commute.join", "t*join(p,q) vs join(t*p,t*q)", tcx * g.join(P[0], P[1]), g.join(tcx * P[0], tcx * P[1]), [tcx, P[0], P[1]])
+                recc("commute.meet", "t*meet(g,h) vs meet(t*g,t*h)", tcx * g.meet(H[0], H[1]), g.meet(tcx * H[0], tcx * H[1]), [tcx, H[0], H[1]])
+                if dim == 3:
+                    recc("commute.join", "t*join(p,q,r)", tcx * g.join(P[0], P[1], P[2]), g.join(tcx * P[0], tcx * P[1], tcx * P[2]), [tcx, *P[:3]])
+                    recc("commute.meet", "t*meet(e,f,h)", tcx * g.meet(H[0], H[1], H[2]), g.meet(tcx * H[0], tcx * H[1], tcx * H[2]), [tcx, *H])
+                hyper = g.join(P[0], P[1]) if dim == 2 else g.join(P[0], P[1], P[2])
+                inc = bool(np.all((tcx * hyper).contains(tcx * P[0])))
+                ctx.judge("incidence", inc, [tcx, P[0], P[1]], what="complex matrix: the image of a hyperplane does not contain the image of one of its points", op="contains (complex matrix)",
+                          nontrivial=True, feat={"dim": dim, "tkind": "complex"})
+            except Exception as e:
+                ctx.judge("commute.join", False, [tcx], what=f"complex matrix: raised {type(e).__name__}: {e}", op="complex transformation", feat={"exc": type(e).__name__})
+
     # a large collection of transformations with two collection axes (the batched inverse kernels) on single objects
     if i % 6 == 0:
         ms = np.stack([c06._rand_matrix(rng, n, j % 4) for j in range(64)]).astype(float).reshape(8, 8, n, n)
